@@ -1208,3 +1208,66 @@ def pan13(ctx):
         raise AnchorMissing("PAN-13: context_match_option has no loop over match_opt_states bounded by unwrap_or(..)")
     r.analysed = {"unbounded_loops": n}
     return r
+
+
+# ---------------------------------------------------------------- FLW-8c: a failed environment alternative leaves no bindings
+
+def flw8c(ctx):
+    """An environment set `:{ A, B }:` (and a list of exceptions) is tried alternative by alternative. What alternative A
+    binds (an alpha, a variable) before it fails must not be seen by B -- B must match as if it stood alone -- nor by the
+    output. In match_contexts_and_exceptions every path from a trial of an alternative back to the loop head (= the
+    alternative failed) passes a write access to both binding tables (the restore of the snapshot)."""
+    from engine_flw2 import _single_def
+    r = RuleResult("FLW-8c", "match_contexts_and_exceptions: after an environment alternative (or exception) has failed, both binding tables (alphas, variables) are written (restored) before the next alternative is tried", floor=4)
+    lib = ctx.lib
+    b = ctx.fn(lib, "asca::subrule::SubRule::match_contexts_and_exceptions")
+    cfg = b.cfg
+    trials = {i for i, t in b.calls() if (callee_path(t) or "").endswith(("SubRule::match_before_env", "SubRule::match_after_env"))}
+    if len(trials) < 4:
+        raise AnchorMissing("FLW-8c: match_contexts_and_exceptions: %d calls of match_before_env / match_after_env (expected 4)" % len(trials))
+
+    def cell_of(l, depth=0):
+        d = _single_def(b, l)
+        if d is None or depth > 4:
+            return None
+        if d.get("k") == "ref":
+            for p in d["pl"]["p"]:
+                if isinstance(p, dict) and p.get("n") in ("alphas", "variables"):
+                    return p["n"]
+            return cell_of(d["pl"]["l"], depth + 1)
+        if d.get("k") == "use" and d["op"].get("k") in ("copy", "move"):
+            return cell_of(d["op"]["pl"]["l"], depth + 1)
+        return None
+    W = {"alphas": set(), "variables": set()}
+    for i, t in b.calls():
+        if (t["callee"].get("def") or "").endswith("RefCell::borrow_mut") or (callee_path(t) or "").endswith("RefCell<T>::borrow_mut"):
+            a = t["args"][0]
+            c = cell_of(a["pl"]["l"]) if a.get("k") in ("copy", "move") else None
+            if c in W:
+                W[c].add(i)
+    n = 0
+    for h, body in cfg.loops:
+        body = set(body)
+        ts = sorted(trials & body)
+        if not ts:
+            continue
+        kind = "exception" if any("false" in json.dumps(b.blocks[t_]["t"]["args"][-1]) for t_ in ts) else "context"
+        for c in ("alphas", "variables"):
+            n += 1
+            bad = None
+            for t_ in ts:
+                nxt = b.blocks[t_]["t"].get("t")
+                if nxt is None:
+                    continue
+                reach = cfg.reachable_from(nxt, avoid=(W[c] & body) | (set(range(len(b.blocks))) - body))
+                if any(h in cfg.succ[x] for x in reach) or nxt == h:
+                    bad = t_
+                    break
+            loc = ":".join((b.blocks[h]["t"].get("loc") or b.loc).split(":")[:2])
+            r.inst("loop over the %s alternatives (%d trials): a failed alternative restores `%s` before the next one" % (kind, len(ts), c), loc, "ok" if bad is None else "report")
+            if bad is not None:
+                r.report("FLW-8c|%s|%s" % (kind, c), ":".join((b.blocks[bad]["t"].get("loc") or b.loc).split(":")[:2]), b.path,
+                         "an alternative of the %s list can fail and the next one be tried without `%s` being restored: what the failed alternative bound is compared against (or reaches the output) -- `a > [αhigh] / :{ _[αhigh]k, [αhigh]_ }:` leaves `iaot` unchanged although its second alternative alone rewrites it" % (kind, c))
+    if n < 4:
+        raise AnchorMissing("FLW-8c: %d (loop, table) pairs examined (expected 4)" % n)
+    return r
